@@ -698,6 +698,78 @@ func ruleTypeSwitch(c *RC) *RuleResult {
 			r.fail("recoveryMessage."+g+"/reconstruction", c.Prog.Pos(fn.Decl), g+" "+bad)
 		}
 	}
+	// what AddPayload notes down about a payload is what the reconstruction is made from: every field of a compact form
+	// that the packing side fills is read by the Get* that unpacks that list (a stored original view that is never read
+	// back means the rebuilt (pre)commits carry the view of the recovery message instead of their own)
+	{
+		filled := map[string]map[string]bool{} // compact type -> fields given a value in AddPayload's cluster
+		for _, mem := range c.clusterFns(add) {
+			minfo := mem.Pkg.TypesInfo
+			ast.Inspect(mem.Decl.Body, func(n ast.Node) bool {
+				cl, ok := n.(*ast.CompositeLit)
+				if !ok {
+					return true
+				}
+				tn := namedName(minfo.TypeOf(cl))
+				if !strings.HasSuffix(tn, "Compact") {
+					return true
+				}
+				if filled[tn] == nil {
+					filled[tn] = map[string]bool{}
+				}
+				for _, el := range cl.Elts {
+					if kv, ok := el.(*ast.KeyValueExpr); ok {
+						if id, ok := kv.Key.(*ast.Ident); ok {
+							filled[tn][id.Name] = true
+						}
+					}
+				}
+				return true
+			})
+		}
+		for g := range map[string]bool{"GetPrepareResponses": true, "GetChangeViews": true, "GetPreCommits": true, "GetCommits": true} {
+			fn := c.recoveryImpl(g)
+			if fn == nil {
+				continue
+			}
+			ginfo := fn.Pkg.TypesInfo
+			read := map[string]map[string]bool{}
+			for _, mem := range c.clusterFns(fn) {
+				ast.Inspect(mem.Decl.Body, func(n ast.Node) bool {
+					sel, ok := n.(*ast.SelectorExpr)
+					if !ok {
+						return true
+					}
+					if sl := mem.Pkg.TypesInfo.Selections[sel]; sl != nil && sl.Kind() == types.FieldVal {
+						tn := namedName(sl.Recv())
+						if strings.HasSuffix(tn, "Compact") {
+							if read[tn] == nil {
+								read[tn] = map[string]bool{}
+							}
+							read[tn][sel.Sel.Name] = true
+						}
+					}
+					return true
+				})
+			}
+			_ = ginfo
+			for tn, fs := range read {
+				var names []string
+				for f := range filled[tn] {
+					names = append(names, f)
+				}
+				sort.Strings(names)
+				for _, f := range names {
+					r.Sites++
+					if fs[f] {
+						r.ok(g + ": " + tn + "." + f + " is read back")
+					} else {
+						r.fail("recoveryMessage."+g+"/compact-field:"+f, c.Prog.Pos(fn.Decl), g+" never reads "+tn+"."+f+", which AddPayload stores: the rebuilt payloads do not carry it (a (pre)commit packed at an earlier view comes out as one of the recovery message's view and is counted as a current-view one)")
+					}
+				}
+			}
+		}
+	}
 	// the wrapper rebuilt around the body: every field of Payload that the encoder writes (and that therefore enters the
 	// hash) is given a value by the maker's literal or by a setter of Payload that the maker or its callers call —
 	// a rebuilt proposal whose envelope differs from the original's hashes differently, and the responses no longer match
